@@ -335,7 +335,15 @@ func runC06(c *Ctx) {
 			}
 		}
 		calls := execNextCalls(f)
-		c.check(call != nil && toOK && jb != nil && isNilConst(jb) && unused && len(calls) == 1, "goto@ActionGoto", f.Pos(),
+		allRet := len(calls) == 1
+		if allRet {
+			for _, r := range returnsOf(f) {
+				if rv := returnedValues(r); len(rv) != 1 || rv[0] != ssa.Value(calls[0]) {
+					allRet = false
+				}
+			}
+		}
+		c.check(call != nil && toOK && jb != nil && isNilConst(jb) && unused && allRet, "goto@ActionGoto", f.Pos(),
 			"goto runs its target with no jump-back and never touches the continuation",
 			fmt.Sprintf("goto must start NewChainWalker(a.To, nil) and ignore the continuation (target ok: %v, jump-back: %s, continuation unused: %v)", toOK, exprStr(jb), unused))
 	}
@@ -360,6 +368,12 @@ func runC06(c *Ctx) {
 		tail := false
 		if len(calls) == 1 {
 			tail, _ = errUnchanged(f, calls[0])
+			// on every path: each return hands back the result of that one walker run (no fast path around it)
+			for _, r := range returnsOf(f) {
+				if rv := returnedValues(r); len(rv) != 1 || rv[0] != ssa.Value(calls[0]) {
+					tail = false
+				}
+			}
 		}
 		c.check(call != nil && toOK && jbOK && tail, "jump@ActionJump", f.Pos(), "jump runs its target with the continuation as jump-back and returns the result",
 			fmt.Sprintf("jump must run NewChainWalker(a.To, &next) and return its result (target ok: %v, jump-back is &next: %v, result returned: %v)", toOK, jbOK, tail))
